@@ -13,8 +13,9 @@ use super::{DiagnosticLocation, DiagnosticMessage, SeverityLevel};
 /// the point of error. As much effort should be done to avoid these errors
 /// and to use `LintErrors`, as those are recoverable.
 pub enum CfgError {
-    /// This error occurs when a label is used but not defined.
-    LabelsNotDefined(HashSet<LabelStringToken>),
+    /// This error occurs when a label is used but not defined: the first use
+    /// of every such label, in the order of the program.
+    LabelsNotDefined(Vec<LabelStringToken>),
     /// This error occurs when a label is defined more than once.
     DuplicateLabel(LabelStringToken),
     /// This error occurs when a return statement is used but can be reached by
@@ -35,14 +36,9 @@ pub enum CfgError {
     AssertionError,
 }
 
-/// The label whose occurrence comes first in the source (by position, then
-/// by name), so that the reported location does not depend on the iteration
-/// order of the set.
-fn first_label(labels: &HashSet<LabelStringToken>) -> &LabelStringToken {
-    labels
-        .iter()
-        .min_by(|a, b| a.range().cmp(&b.range()).then_with(|| a.cmp(b)))
-        .unwrap()
+/// The label whose use comes first in the program.
+fn first_label(labels: &[LabelStringToken]) -> &LabelStringToken {
+    labels.first().unwrap()
 }
 
 trait SetListString {
@@ -50,6 +46,20 @@ trait SetListString {
 }
 
 impl<T> SetListString for HashSet<T>
+where
+    T: Display + Ord,
+{
+    fn as_str_list(&self) -> String {
+        let mut vec = self.iter().collect::<Vec<_>>();
+        vec.sort();
+        vec.iter()
+            .map(std::string::ToString::to_string)
+            .collect::<Vec<_>>()
+            .join(", ")
+    }
+}
+
+impl<T> SetListString for Vec<T>
 where
     T: Display + Ord,
 {
